@@ -24,6 +24,7 @@ type relayOpts struct {
 	RichRoute  bool  // C13-style route sets
 	JoinOpaque bool  // undecodable Via entries may share a header line with decodable ones (below the first line)
 	LongLists  bool  // now and then a Record-Route list long enough that joined lines exceed the 4096-byte reader window
+	Sloppy     bool // C01: Content-Length with leading zeros; blanks after ';' and around '=' in From / To header parameters other than tag
 	Entries    []int // listen entries to use as ingress
 	NoTCP      bool
 }
@@ -308,9 +309,28 @@ func (s *stdSvc) gRelayRequest(rt *rapid.T, o relayOpts) relayCase {
 	}
 	p.Ext = gExtHeaders(rt, "ext", o.MaxExt, o.MaxLong)
 	p.Body = gBody(rt, "body", o.MaxBody)
+	if o.Sloppy && rapid.IntRange(0, 7).Draw(rt, "blanks inside From / To parameters") == 0 {
+		// RFC 3261 allows white space around ';' and '=' (SEMI, EQUAL); it is part
+		// of the value text a relay leaves alone. (The tag stays as it is: whether
+		// a sloppily written tag counts as one is not C01's subject.)
+		for _, n := range []*ANameAddr{&p.From, &p.To} {
+			for i := range n.Params {
+				if n.Params[i].K == "tag" {
+					continue
+				}
+				n.Params[i].K = " " + n.Params[i].K
+				if n.Params[i].HasV && rapid.Bool().Draw(rt, "blank before =") {
+					n.Params[i].K += " "
+				}
+			}
+		}
+	}
 	m := assemble(rt, "layout", p)
 	if !(g.TCP && proto == "tcp") {
 		fitUDP(m, 63000)
+	}
+	if o.Sloppy && rapid.IntRange(0, 7).Draw(rt, "Content-Length with leading zeros") == 0 {
+		m.CLOverride = strings.Repeat("0", rapid.IntRange(1, 3).Draw(rt, "zeros")) + strconv.Itoa(len(m.Body))
 	}
 	rc.Msg = m
 	rc.Wire = jsonBytes(m.Bytes())
